@@ -92,6 +92,11 @@ def fuelFor (g : Graph) (S : List Nat) (stack : List Nat) : Nat := stack.length 
 def walk (g : Graph) (stopAt : Nat) (tr : MapT) (root : Nat) : Option St :=
   loop g true stopAt (fuelFor g tr.set [root]) { stack := [root], tr := tr, out := [] }
 
+/-- Context cancelled during the k-th emit call (the callback itself returns true): the loop reaches its
+`ctx.Err()` test with exactly the state `walk g k …` stops in, and returns the context error iff the stack is
+not empty (otherwise the `for` condition ends the walk with nil). -/
+def cancelledErr (s : St) : Bool := !s.stack.isEmpty
+
 /-- without a tracker nothing bounds the walk but the shape of the DAG: the caller supplies the fuel -/
 def walkNoTracker (g : Graph) (stopAt : Nat) (fuel : Nat) (root : Nat) : Option St :=
   loop g false stopAt fuel { stack := [root], tr := {}, out := [] }
